@@ -71,8 +71,8 @@ Lemma rename_space_noop st p new r st' : step_rename_space st p new = (Rejected 
 Proof.
   unfold step_rename_space, reject. intros H. destruct p as [|x t]; [inv H; reflexivity|].
   destruct (negb (has_space st (x :: t))); [inv H; reflexivity|].
-  destruct (negb (can_add_space st _ new)); [inv H; reflexivity|].
-  destruct (negb (is_valid_name new)); [inv H; reflexivity|discriminate].
+  destruct (negb (is_valid_name new)); [inv H; reflexivity|].
+  destruct (negb (can_add_space st _ new)); [inv H; reflexivity|discriminate].
 Qed.
 
 Lemma add_bases_noop st s bs r st' : step_add_bases st s bs = (Rejected r, st') -> st' = st.
